@@ -42,7 +42,7 @@ theorem C17_returned_closed (h : Host) (hw : WF h) (hr : h.closes.any Close.isRe
 /-- **C17, quiet (one block).**  In a closed host every block that can occur at all — timer, task
 resumption, a further close call or a step of a close still in progress, an API call — emits nothing
 (no datagram, no goodbye, no callback), and the host stays closed. -/
-theorem C17_quiet (h : Host) (hw : WF h) (hc : Closed h) (b : Block) (h' : Host) (o : List Out)
+theorem C17_quiet (h : Host) (hw : WF h) (hc : Closed h) (b : Block) (hnb : b.isBrowse = false) (h' : Host) (o : List Out)
     (hs : step h b = some (h', o)) : (∀ x ∈ o, x.isEmission = false) ∧ Closed h' := by
   obtain ⟨hd, ht, hcl, hret⟩ := hc
   have sm := step_summary h b h' o hw hs
@@ -55,7 +55,15 @@ theorem C17_quiet (h : Host) (hw : WF h) (hc : Closed h) (b : Block) (h' : Host)
     · rfl
     · exact hg _
   cases b with
-  | recv s q d u => simp [step, ht] at hs
+  | recv s q d u da => simp [step, ht] at hs
+  | apiBrowse tr rp => simp [Block.isBrowse] at hnb
+  | connectionLost =>
+    simp only [step] at hs
+    split at hs
+    · simp at hs
+    · simp only [Option.some.injEq, Prod.mk.injEq] at hs
+      obtain ⟨_, rfl⟩ := hs
+      simp
   | outqFire r =>
     simp only [step] at hs
     split at hs
@@ -63,10 +71,13 @@ theorem C17_quiet (h : Host) (hw : WF h) (hc : Closed h) (b : Block) (h' : Host)
     · simp only [Option.some.injEq, Prod.mk.injEq] at hs
       obtain ⟨_, rfl⟩ := hs
       simp [hg]
-  | tcFire s q =>
+  | tcFire s q ti =>
     simp only [step] at hs
     split at hs
     · simp at hs
+    · simp only [Option.some.injEq, Prod.mk.injEq] at hs
+      obtain ⟨_, rfl⟩ := hs
+      simp [Out.isEmission]
     · simp only [Option.some.injEq, Prod.mk.injEq] at hs
       obtain ⟨_, rfl⟩ := hs
       simp [hg]
@@ -175,7 +186,7 @@ theorem C17_quiet (h : Host) (hw : WF h) (hc : Closed h) (b : Block) (h' : Host)
 /-- **C17, quiet (forever).**  After some close call has returned, every sequence of blocks — hours of
 timers, task wake-ups, the remaining steps of overlapping closes, further closes, API calls — emits nothing
 at all. -/
-theorem C17_quiet_run (bs : List Block) : ∀ (h : Host), WF h → Closed h → ∀ h' o, run h bs = some (h', o) →
+theorem C17_quiet_run (bs : List Block) (hnb : ∀ b ∈ bs, b.isBrowse = false) : ∀ (h : Host), WF h → Closed h → ∀ h' o, run h bs = some (h', o) →
     (∀ x ∈ o, x.isEmission = false) ∧ Closed h' ∧ WF h' := by
   induction bs with
   | nil =>
@@ -186,8 +197,8 @@ theorem C17_quiet_run (bs : List Block) : ∀ (h : Host), WF h → Closed h → 
   | cons b rest ih =>
     intro h hw hc h' o hr
     obtain ⟨s1, o1, o2, h1, h2, rfl⟩ := run_cons h b rest h' o hr
-    obtain ⟨e1, c1⟩ := C17_quiet h hw hc b s1 o1 h1
-    obtain ⟨e2, c2, w2⟩ := ih s1 (WF_step h b s1 o1 hw h1) c1 h' o2 h2
+    obtain ⟨e1, c1⟩ := C17_quiet h hw hc b (hnb b (by simp)) s1 o1 h1
+    obtain ⟨e2, c2, w2⟩ := ih (fun x hx => hnb x (by simp [hx])) s1 (WF_step h b s1 o1 hw h1) c1 h' o2 h2
     refine ⟨?_, c2, w2⟩
     intro x hx
     rcases List.mem_append.mp hx with hx | hx
@@ -195,9 +206,10 @@ theorem C17_quiet_run (bs : List Block) : ∀ (h : Host), WF h → Closed h → 
     · exact e2 x hx
 
 /-- the same, starting from "a close call has returned" -/
-theorem C17_quiet_after_return (bs : List Block) (h : Host) (hw : WF h) (hr : h.closes.any Close.isReturned = true)
+theorem C17_quiet_after_return (bs : List Block) (hnb : ∀ b ∈ bs, b.isBrowse = false) (h : Host) (hw : WF h)
+    (hr : h.closes.any Close.isReturned = true)
     (h' : Host) (o : List Out) (hrun : run h bs = some (h', o)) : ∀ x ∈ o, x.isEmission = false :=
-  (C17_quiet_run bs h hw (C17_returned_closed h hw hr) h' o hrun).1
+  (C17_quiet_run bs hnb h hw (C17_returned_closed h hw hr) h' o hrun).1
 
 /-- datagrams can no longer even arrive: a closed host rejects `recv`; nor can the cleanup timer fire, nor
 can start-up complete -/
@@ -213,7 +225,8 @@ def Block.plainClose : Block → Bool
 
 /-- **The raise sites.**  In any state, the only blocks that hand an exception to a caller are: an API call on a done
 instance (`NotRunningException`) and the cancellation, by its caller, of the task awaiting a close (`CancelledError`).
-Timers, task resumptions and **every step of every close call** never raise — before or after close. -/
+No step of any close call does.  (Exceptions that reach the *loop* from timer callbacks are a different outcome,
+`Out.loopError`; see `C17_loop_error_site` / `C17_no_timer_raises` below.) -/
 theorem C17_raise_sites (h : Host) (b : Block) (h' : Host) (o : List Out) (hs : step h b = some (h', o))
     (e : Exc) (he : Out.raised e ∈ o) :
     (e = .notRunning ∧ ∃ k, b = .apiCall k) ∨ (e = .cancelled ∧ ∃ i, b = .closeAbort i) := by
@@ -242,7 +255,7 @@ theorem C17_raise_sites (h : Host) (b : Block) (h' : Host) (o : List Out) (hs : 
     · simp at hm
     · exact hone .goodbye e' (by intro e'' hh; cases hh) hm
   cases b with
-  | recv s q d u =>
+  | recv s q d u da =>
     simp only [step] at hs
     split at hs
     · simp at hs
@@ -261,13 +274,28 @@ theorem C17_raise_sites (h : Host) (b : Block) (h' : Host) (o : List Out) (hs : 
       split at he
       · exact hone .send e (by intro e'' hh; cases hh) he
       · exact hgr [] (by simp) e he
-  | tcFire s q =>
+  | tcFire s q ti =>
     simp only [step] at hs
     split at hs
     · simp at hs
     · simp only [Option.some.injEq, Prod.mk.injEq] at hs
       obtain ⟨_, rfl⟩ := hs
+      simp at he
+    · simp only [Option.some.injEq, Prod.mk.injEq] at hs
+      obtain ⟨_, rfl⟩ := hs
       exact absurd he (hrep _ _)
+  | connectionLost =>
+    simp only [step] at hs
+    split at hs
+    · simp at hs
+    · simp only [Option.some.injEq, Prod.mk.injEq] at hs
+      obtain ⟨_, rfl⟩ := hs
+      simp at he
+  | apiBrowse tr rp =>
+    simp only [step, Option.some.injEq, Prod.mk.injEq] at hs
+    obtain ⟨_, rfl⟩ := hs
+    simp only [List.mem_replicate] at he
+    exact absurd he.2 (by intro hh; cases hh)
   | schedFire i q =>
     simp only [step] at hs
     split at hs
@@ -458,6 +486,145 @@ already done -/
 theorem C17_wake_raised_before_fix (r d : Bool) : wakeRaises false r d = true ↔ (r = false ∨ d = true) := by
   simp [wakeRaises, wait_raises_after_iff]
 
+/-! ## timers that outlive the close
+
+What the close path cancels, closes or leaves alone is read off the source by statement-level leaves
+(`GenFacts.Shutdown.*_holds`): `_async_close` cancels the cleanup timer; `_async_shutdown` closes (not aborts) every
+transport; `async_close` cancels the tracked browsers, whose `_async_cancel` stops the scheduler (which cancels its timer)
+and removes the listener; `connection_lost` — scheduled by `transport.close()` — does nothing.  What is *not* cancelled —
+the listener's deferred-TC timers, the aggregation-queue timers, the scheduler timers of untracked browsers, lookups and
+registration tasks in progress — keeps firing after the close; the theorems say what then happens. -/
+
+/-- **`TcInv`** — every armed deferred-TC timer has a packet to answer — holds with no timer armed and is preserved by
+every block, `connection_lost` included.  It is the flag-machine form of C16's `TimerInv`
+(`C16_timer_invariant`, proved there for the listener over every handler). -/
+theorem C17_tc_invariant :
+    (∀ h : Host, h.tcs = [] → TcInv h) ∧
+    (∀ (h h' : Host) (b : Block) (o : List Out), TcInv h → step h b = some (h', o) → TcInv h') ∧
+    (∀ (bs : List Block) (h h' : Host) (o : List Out), TcInv h → run h bs = some (h', o) → TcInv h') :=
+  ⟨fun h he n hn => by simp [he] at hn, fun h h' b o hi hs => TcInv_step h b h' o hi hs, TcInv_run⟩
+
+/-- **the one place where a surviving timer can raise into the loop**: a deferred-TC timer firing for an address
+with nothing deferred (`packets[0]` on an empty list).  No other block — queue timers, scheduler timers, the cleanup
+timer, `connection_lost`, task resumptions, close steps — has a raising outcome in the code paths modelled. -/
+theorem C17_loop_error_site (h : Host) (b : Block) (h' : Host) (o : List Out) (hs : step h b = some (h', o))
+    (he : Out.loopError ∈ o) : ∃ s q i, b = .tcFire s q i ∧ h.tcs[i]? = some 0 :=
+  loopError_site h b h' o hs he
+
+/-- **No timer left behind raises.**  Under `TcInv` no block hands an exception to the event loop — before, during or
+after the close.  It holds *because* nothing on the close path empties `_deferred` while leaving `_timers` armed:
+`connection_lost` is a no-op (leaf `connection_lost_is_noop`; with any other body the model's `connectionLost` block drops
+the packets and this theorem's proof — `TcInv_step` — fails). -/
+theorem C17_no_timer_raises (h : Host) (hi : TcInv h) (b : Block) (h' : Host) (o : List Out) (hs : step h b = some (h', o)) :
+    Out.loopError ∉ o := by
+  intro he
+  obtain ⟨s, q, i, _, hz⟩ := loopError_site h b h' o hs he
+  exact absurd (hi 0 (List.mem_of_getElem? hz)) (by decide)
+
+/-- … for whole histories: from a host whose armed TC timers all have packets (in particular a fresh one), no sequence
+of blocks ever raises into the loop, and the invariant still holds at the end -/
+theorem C17_no_timer_raises_run (bs : List Block) : ∀ (h h' : Host) (o : List Out), TcInv h → run h bs = some (h', o) →
+    Out.loopError ∉ o ∧ TcInv h' := by
+  induction bs with
+  | nil =>
+    intro h h' o hi hr
+    simp only [run, Option.some.injEq, Prod.mk.injEq] at hr
+    obtain ⟨rfl, rfl⟩ := hr
+    exact ⟨by simp, hi⟩
+  | cons b rest ih =>
+    intro h h' o hi hr
+    obtain ⟨s1, o1, o2, h1, h2, rfl⟩ := run_cons h b rest h' o hr
+    obtain ⟨e2, i2⟩ := ih s1 h' o2 (TcInv_step h b s1 o1 hi h1) h2
+    refine ⟨?_, i2⟩
+    intro hm
+    rcases List.mem_append.mp hm with hm | hm
+    · exact C17_no_timer_raises h hi b s1 o1 h1 hm
+    · exact e2 hm
+
+/-- the invariant is what carries the proof: with a packet-less armed timer (what a `connection_lost` that clears
+`_deferred` would leave behind) the timer does raise into the loop — closed host or not -/
+theorem C17_timer_raises_without_invariant (h : Host) (rest : List Nat) (s q : Nat) :
+    ∃ h', step { h with tcs := 0 :: rest } (.tcFire s q 0) = some (h', [.loopError]) :=
+  ⟨_, rfl⟩
+
+/-- the cleanup timer is cancelled by the close (`_async_close`: `self._cleanup_timer.cancel()`, leaf), so it cannot fire
+afterwards; the transports are closed, so nothing arrives; start-up cannot complete -/
+theorem C17_cancelled_timers_cannot_fire (h : Host) (hw : WF h) (hr : h.closes.any Close.isReturned = true) (e : Bool) (s q : Nat) (d u : Bool) (da : Nat) :
+    step h (.cleanupFire e) = none ∧ step h (.recv s q d u da) = none := by
+  obtain ⟨_, ht, hcl, _⟩ := C17_returned_closed h hw hr
+  simp [step, ht, hcl]
+
+/-- the tracked browsers are cancelled by the close call itself: scheduler timer disarmed, listener removed — their
+`schedFire` is not enabled afterwards and record updates no longer reach them -/
+theorem C17_tracked_browsers_cancelled (h : Host) (hrun : h.running = true) (h' : Host) (o : List Out)
+    (hs : step h (.closeCall false) = some (h', o)) : ∀ b ∈ h'.browsers, b.tracked = true → b.timer = false ∧ b.listening = false := by
+  simp only [step, hrun, Bool.not_true, Bool.and_false, Bool.false_eq_true, ↓reduceIte, Option.some.injEq, Prod.mk.injEq] at hs
+  obtain ⟨rfl, _⟩ := hs
+  intro b hb ht
+  simp only [closeBody, cancelTracked, Bool.false_eq_true, ↓reduceIte, List.mem_map] at hb
+  obtain ⟨b0, _, rfl⟩ := hb
+  by_cases hb0 : b0.tracked = true <;> simp_all
+
+/-- the scheduler timer of a browser that was *not* cancelled fires at most once more after `done`: the pass returns
+without sending and without re-arming -/
+theorem C17_untracked_scheduler_stops (h : Host) (hd : h.done = true) (i q : Nat) (h' : Host) (o : List Out)
+    (hs : step h (.schedFire i q) = some (h', o)) : o = [] ∧ step h' (.schedFire i q) = none := by
+  simp only [step] at hs
+  split at hs
+  · simp at hs
+  · rename_i b hb
+    split at hs
+    · simp at hs
+    · simp only [hd, sched_blocked_of_done, ↓reduceIte, Option.some.injEq, Prod.mk.injEq] at hs
+      obtain ⟨rfl, rfl⟩ := hs
+      refine ⟨rfl, ?_⟩
+      have hlt : i < h.browsers.length := (List.getElem?_eq_some_iff.mp hb).1
+      simp [step, setTimer, List.getElem?_mapIdx, hb]
+
+/-- `running` implies the transports are open — an invariant (start-up sets `running` only on open transports, the
+shutdown clears it when it closes them) -/
+theorem C17_running_open_invariant (h : Host) (b : Block) (h' : Host) (o : List Out)
+    (hi : h.running = true → h.transportsClosed = false) (hs : step h b = some (h', o)) :
+    h'.running = true → h'.transportsClosed = false := by
+  cases b with
+  | startUp =>
+    simp only [step] at hs
+    split at hs
+    · simp at hs
+    · rename_i hc
+      simp only [Option.some.injEq, Prod.mk.injEq] at hs
+      obtain ⟨rfl, _⟩ := hs
+      intro _
+      simp only [Bool.or_eq_true, not_or, Bool.not_eq_true] at hc
+      exact hc.2
+  | _ =>
+    simp only [step] at hs <;> (repeat' split at hs) <;>
+      first
+      | (simp at hs; done)
+      | (simp only [Option.some.injEq, Prod.mk.injEq] at hs
+         obtain ⟨rfl, _⟩ := hs
+         first
+         | exact hi
+         | (intro hh; simp at hh; done)
+         | (simp only [closeBody, Host.setStage]; exact hi))
+
+/-! ## every close call ends -/
+
+/-- **progress**: in any state, the next block of a close call that has not ended (sync or async; a parked call is
+woken at the latest by its own 1 s timeout) is enabled, and performing it moves the call strictly closer to its end
+(`Close.rank`) — whatever the other closes, timers and tasks are doing -/
+theorem C17_close_progress (h : Host) (k : Nat) (c : Close) (b : Block) (hc : h.closes[k]? = some c) (hn : c.next k = some b) :
+    ∃ h' o c', step h b = some (h', o) ∧ h'.closes[k]? = some c' ∧ c'.rank < c.rank :=
+  close_progress h k c b hc hn
+
+/-- **frame**: blocks that are not steps of close `k` — other closes' steps included — leave its program counter alone.
+With `C17_close_progress` (rank ≤ 10) this gives: under any interleaving in which a close call gets its turn at most
+ten times, it has returned (or was cancelled by its caller); and by `C17_close_returns_closed` the block in which it
+returns ends `Closed`. -/
+theorem C17_close_frame (h : Host) (b : Block) (h' : Host) (o : List Out) (hs : step h b = some (h', o)) (k : Nat)
+    (hb : b.closeIndex ≠ some k) (hk : k < h.closes.length) : h'.closes[k]? = h.closes[k]? :=
+  closes_frame h b h' o hs k hb hk
+
 /-! ## the goodbyes -/
 
 /-- **C17, goodbyes first — every interleaving (partial).**  A close call (sync or async) on a running,
@@ -467,10 +634,10 @@ shutting the instance down early, cancellations, timers, traffic — the registr
 *provided no registration completes meanwhile*.  The proviso is exactly the signature of finding D15
 (`C17_goodbye_full_refuted`). -/
 theorem C17_goodbye_once_partial (h : Host) (sync : Bool) (hnd : h.done = false) (hrun : h.running = true)
-    (hreg : 0 < h.registry) (bs : List Block) (hb : ∀ b ∈ bs, b.noCompletion = true)
+    (hopen : h.transportsClosed = false) (hreg : 0 < h.registry) (bs : List Block) (hb : ∀ b ∈ bs, b.noCompletion = true)
     (h' : Host) (o : List Out) (hr : run h (.closeCall sync :: bs) = some (h', o)) :
     (∃ h1 o1, step h (.closeCall sync) = some (h1, o1) ∧ count isGoodbye o1 = 1 ∧
-        h1.transportsClosed = h.transportsClosed ∧ h1.done = false) ∧
+        h1.transportsClosed = false ∧ h1.done = false) ∧
     h'.registry = 0 ∧ 1 ≤ count isGoodbye o := by
   have hreg' : h.registry ≠ 0 := by omega
   obtain ⟨s1, o1, o2, h1, h2, rfl⟩ := run_cons h (.closeCall sync) bs h' o hr
@@ -481,7 +648,7 @@ theorem C17_goodbye_once_partial (h : Host) (sync : Bool) (hnd : h.done = false)
   have hc1 : count isGoodbye (closeBody h sync).2.1 = 1 := by
     simp only [closeBody, hreg', ↓reduceIte, gated_of_not_done h hnd]
     rfl
-  refine ⟨⟨_, _, hstep, hc1, by simp [closeBody], by simp [closeBody, hnd]⟩, ?_, ?_⟩
+  refine ⟨⟨_, _, hstep, hc1, by simp [closeBody, hopen], by simp [closeBody, hnd]⟩, ?_, ?_⟩
   · exact noCompletion_run bs hb _ h' o2 h2 (by simp [closeBody])
   · rw [count_append, hc1]; omega
 
@@ -580,7 +747,7 @@ def C17_goodbye_full : Prop :=
 the second goodbye → it sits in the registry when the transports close -/
 def d15Host : Host :=
   { done := false, running := true, transportsClosed := false, cleanupArmed := true, registry := 1, browsers := [],
-    outq := 0, tc := 0, lookups := 0, probing := 1, announcing := 0, closes := [] }
+    outq := 0, tcs := [], lookups := 0, probing := 1, announcing := 0, closes := [] }
 
 theorem C17_goodbye_full_refuted : ¬ C17_goodbye_full := by
   intro hf
@@ -596,7 +763,7 @@ def reclose (h : Host) : List Block :=
 registry is emptied (silently), one more returned call is on record; the flags are as they were -/
 def recloseResult (h : Host) : Host :=
   { done := true, running := false, transportsClosed := true, cleanupArmed := false, registry := 0,
-    browsers := cancelTracked h.browsers, outq := h.outq, tc := h.tc, lookups := h.lookups, probing := h.probing,
+    browsers := cancelTracked h.browsers, outq := h.outq, tcs := h.tcs, lookups := h.lookups, probing := h.probing,
     announcing := h.announcing, closes := h.closes ++ [⟨false, .returned⟩] }
 
 /-- **C17, closing again is a no-op**: on a closed host a further `async_close()` runs through all its blocks,
@@ -609,8 +776,8 @@ theorem C17_idempotent (h : Host) (hc : Closed h) :
     simp [Closed, recloseResult, hret]
   refine ⟨recloseResult h, ?_, hcl', by simp [recloseResult, hd], by simp [recloseResult, ht], by simp [recloseResult, hcl]⟩
   by_cases hr : h.registry = 0
-  · simp [reclose, recloseResult, hr, run, step, close_no_wait_of_done, closeBody, Host.setStage, bind, Option.bind, pure, hd, ht, hcl]
-  · simp [reclose, recloseResult, hr, run, step, close_no_wait_of_done, closeBody, Host.setStage, moreGoodbyes, register_broadcasts, bind,
+  · simp [reclose, recloseResult, hr, run, step, close_no_wait_of_done, transportsAfterShutdown_eq, cleanupAfterClose_eq, closeBody, Host.setStage, bind, Option.bind, pure, hd, ht, hcl]
+  · simp [reclose, recloseResult, hr, run, step, close_no_wait_of_done, transportsAfterShutdown_eq, cleanupAfterClose_eq, closeBody, Host.setStage, moreGoodbyes, register_broadcasts, bind,
       Option.bind, pure, gated, hd, ht, hcl, send_blocked_of_done]
 
 /-- the remaining blocks of an `async_close()` that was parked waiting for start-up as call `i` -/
@@ -619,7 +786,7 @@ def rewake (h : Host) (i : Nat) : List Block :=
 
 def rewakeResult (h : Host) (i : Nat) : Host :=
   { done := true, running := false, transportsClosed := true, cleanupArmed := false, registry := 0,
-    browsers := cancelTracked h.browsers, outq := h.outq, tc := h.tc, lookups := h.lookups, probing := h.probing,
+    browsers := cancelTracked h.browsers, outq := h.outq, tcs := h.tcs, lookups := h.lookups, probing := h.probing,
     announcing := h.announcing, closes := h.closes.set i ⟨false, .returned⟩ }
 
 /-- **C17, closing again is a no-op — also for closes that overlapped start-up.**  A close call that was parked in
@@ -638,15 +805,15 @@ theorem C17_idempotent_waiting (h : Host) (hc : Closed h) (i : Nat) (hi : h.clos
     exact any_set_of_not _ i _ _ hi rfl hret
   refine ⟨rewakeResult h i, ?_, hcl', by simp [rewakeResult, hd], by simp [rewakeResult, ht], by simp [rewakeResult, hcl]⟩
   by_cases hr : h.registry = 0
-  · simp [rewake, rewakeResult, hr, run, step, hget, wakeRaises_suppressed, closeBody, Host.setStage, bind, Option.bind, pure,
+  · simp [rewake, rewakeResult, hr, run, step, hget, wakeRaises_suppressed, transportsAfterShutdown_eq, cleanupAfterClose_eq, closeBody, Host.setStage, bind, Option.bind, pure,
       hd, ht, hcl, hlt]
-  · simp [rewake, rewakeResult, hr, run, step, hget, wakeRaises_suppressed, closeBody, Host.setStage, moreGoodbyes,
+  · simp [rewake, rewakeResult, hr, run, step, hget, wakeRaises_suppressed, transportsAfterShutdown_eq, cleanupAfterClose_eq, closeBody, Host.setStage, moreGoodbyes,
       register_broadcasts, bind, Option.bind, pure, gated, hd, ht, hcl, hlt, send_blocked_of_done]
 
 /-- two `async_close()` calls made before the engine finished starting (the D17 scenario) -/
 def d17Host : Host :=
   { done := false, running := false, transportsClosed := false, cleanupArmed := true, registry := 0, browsers := [],
-    outq := 0, tc := 0, lookups := 0, probing := 0, announcing := 0, closes := [] }
+    outq := 0, tcs := [], lookups := 0, probing := 0, announcing := 0, closes := [] }
 
 def d17Blocks : List Block :=
   [.closeCall false, .closeCall false, .startUp, .closeWake 0 false, .closeShutdown 0, .closeWake 1 false, .closeFinish 0,
@@ -658,7 +825,7 @@ def d17Blocks : List Block :=
 query, a tracked and an untracked browser with armed timers, a lookup -/
 def busy : Host :=
   { done := false, running := true, transportsClosed := false, cleanupArmed := true, registry := 1,
-    browsers := [⟨true, false, true, true⟩, ⟨false, false, true, true⟩], outq := 2, tc := 1, lookups := 1,
+    browsers := [⟨true, false, true, true⟩, ⟨false, false, true, true⟩], outq := 2, tcs := [1], lookups := 1,
     probing := 1, announcing := 1, closes := [] }
 
 /-- one close with traffic interleaved -/
@@ -676,12 +843,12 @@ def overlapSeq : List Block :=
 example : (run busy closeSeq).map (fun r => count isGoodbye r.2) = some 3 := by decide
 example : (run busy closeSeq).map (fun r => r.2.length) = some 9 := by decide
 -- … and ends closed, with things still in flight (timers armed, tasks pending)
-example : ∃ r, run busy closeSeq = some r ∧ Closed r.1 ∧ r.1.outq = 2 ∧ r.1.tc = 1 ∧ r.1.probing = 1 ∧ r.1.lookups = 1 := by decide
+example : ∃ r, run busy closeSeq = some r ∧ Closed r.1 ∧ r.1.outq = 2 ∧ r.1.tcs = [1] ∧ r.1.probing = 1 ∧ r.1.lookups = 1 := by decide
 -- after which the very same kinds of blocks are silent, and an API call raises to its caller only
-example : (run busy (closeSeq ++ [.outqFire true, .tcFire 2 1, .schedFire 1 1, .probeStep true, .announceStep true,
+example : (run busy (closeSeq ++ [.outqFire true, .tcFire 2 1 0, .schedFire 1 1, .probeStep true, .announceStep true,
     .lookupStep 1 true, .closeCall false, .apiCall .register])).map (fun r => r.2.drop 9) = some [.raised .notRunning] := by decide
 -- before the close they are not
-example : (run busy [.outqFire true, .tcFire 2 1, .schedFire 1 1, .probeStep true, .lookupStep 1 true]).map (fun r => r.2.length) = some 6 := by decide
+example : (run busy [.outqFire true, .tcFire 2 1 0, .schedFire 1 1, .probeStep true, .lookupStep 1 true]).map (fun r => r.2.length) = some 6 := by decide
 -- overlapping closes: one goodbye reaches the wire (D-free: the others are gated), the cancelled close raises to its caller,
 -- everything after the first return is silent, the host ends closed with two calls returned and one aborted
 example : (run busy overlapSeq).map (fun r => (count isGoodbye r.2, r.2.contains (.raised .cancelled))) = some (1, true) := by decide
@@ -697,5 +864,15 @@ example : Block.mid3 (.recv 1 1 false true) = true ∧ Block.mid3 (.closeCall tr
 -- and both return; nothing is emitted, nothing raises
 example : (run d17Host d17Blocks).map (fun r => (r.2, r.1.closes.map (·.stage))) = some ([], [.returned, .returned]) := by decide
 example : ∃ r, run d17Host d17Blocks = some r ∧ Closed r.1 := by decide
+
+-- creating a browser on a closed host *does* call back (cache replay): the one block `C17_quiet` excludes, and why
+example : ∃ r, run busy (closeSeq ++ [.apiBrowse false 2]) = some r ∧ r.2.drop 9 = [.callback, .callback] := by decide
+-- `TcInv` holds on `busy` (one armed TC timer with one packet); a second truncated query for the same address adds a packet,
+-- the timer then answers — no exception — also after the close, and `connection_lost` in between changes nothing
+example : TcInv busy := by decide
+example : (run busy ([.recv 0 0 true false 0] ++ closeSeq ++ [.connectionLost, .tcFire 1 0 0])).map
+    (fun r => (r.1.tcs, r.2.contains .loopError)) = some ([], false) := by decide
+-- every close call of `overlapSeq` has ended, and `Close.next` says so
+example : (run busy overlapSeq).map (fun r => r.1.closes.map (fun c => c.next 0)) = some [none, none, none] := by decide
 
 end Zc.Shutdown
